@@ -79,6 +79,7 @@ pub fn check_pair(rep: &mut Rep, a: Duration, b: Duration) {
         if nt {
             rep.nt(h(1));
         }
+        rep.log_event("add", || format!("\"a\":[{},{}],\"b\":[{},{}],\"want\":\"{}\"", pa.0, pa.1, pb.0, pb.1, clamp(want)));
         rep.sample("add", || format!("{} + {} => want {}", fmt_parts(pa), fmt_parts(pb), fmt_parts(canon(want))));
         judge(rep, "add", guard(|| a + b), want, None, &det("+"));
     }
@@ -114,6 +115,7 @@ pub fn check_pair(rep: &mut Rep, a: Duration, b: Duration) {
         if nt {
             rep.nt(h(2));
         }
+        rep.log_event("sub", || format!("\"a\":[{},{}],\"b\":[{},{}],\"want\":\"{}\"", pa.0, pa.1, pb.0, pb.1, clamp(want)));
         rep.sample("sub", || format!("{} - {} => want {}", fmt_parts(pa), fmt_parts(pb), fmt_parts(canon(want))));
         judge(rep, "sub", guard(|| a - b), want, None, &det("-"));
     }
@@ -137,6 +139,7 @@ pub fn check_unary(rep: &mut Rep, a: Duration) {
             rep.class("neg/whole-century");
             rep.nt(h64(&[3, pa.0 as u64, pa.1]));
         }
+        rep.log_event("neg", || format!("\"a\":[{},{}],\"want\":\"{}\"", pa.0, pa.1, clamp(-ca)));
         rep.sample("neg", || format!("-{} => want {}", fmt_parts(pa), fmt_parts(canon(-ca))));
         judge(rep, "neg", guard(|| -a), -ca, None, &det("neg"));
     }
@@ -200,6 +203,7 @@ pub fn check_scalar(rep: &mut Rep, a: Duration, q: i64) {
         if nt {
             rep.nt(h(5));
         }
+        rep.log_event("mul", || format!("\"a\":[{},{}],\"q\":\"{}\",\"want\":\"{}\"", pa.0, pa.1, q, clamp(want)));
         rep.sample("mul", || format!("{} * {} => want {}", fmt_parts(pa), q, fmt_parts(canon(want))));
         judge(rep, "mul", guard(|| a * q), want, Some(("F1-mul", sat_mul(f1, q as i128))), &|| format!("{} * {}", fmt_parts(pa), q));
     }
@@ -221,6 +225,7 @@ pub fn check_scalar(rep: &mut Rep, a: Duration, q: i64) {
         if nt {
             rep.nt(h(6));
         }
+        rep.log_event("div", || format!("\"a\":[{},{}],\"q\":\"{}\",\"want\":\"{}\"", pa.0, pa.1, q, clamp(want)));
         rep.sample("div", || format!("{} / {} => want {}", fmt_parts(pa), q, fmt_parts(canon(want))));
         judge(rep, "div", guard(|| a / q), want, Some(("F1-div", f1 / q as i128)), &|| format!("{} / {}", fmt_parts(pa), q));
     }
